@@ -62,3 +62,39 @@ Section FactorOrder.
   Proof. split; eexists; split; vm_compute; reflexivity. Qed.
 End FactorOrder.
 Print Assumptions C08_refuted_factor_order.
+
+(* ---- a declaration in progress: three kinds of source lines, and whole queries of other threads between any two of them ----
+   _find_path memoises paths, _plan_conversion memoises the plans built from them (Model/Memo2.v).  When the paths are forgotten
+   BEFORE the plans -- the order the per-run obligation Gen_declshape reads off equate / translate / _forget_cached_conversions --
+   then for ANY planner (pf, g), any queries made while the ratios are being stored, between the two forgettings and afterwards, the
+   state the declaration leaves is the one a fresh process with the same declarations would build, and every later query is answered
+   accordingly. *)
+From Measured Require Import Model.Memo2 Proofs.Memo2Facts.
+
+Theorem C08_declaration_in_progress : forall {D K P V : Type} (keqb : K -> K -> bool),
+  (forall a b, keqb a b = true -> a = b) ->
+  forall (pf : list D -> K -> P) (g : P -> K -> V) (cacheable : V -> bool) s stores q1 q2,
+  Cons keqb pf g s ->
+  let s' := fst (run_lines keqb pf g cacheable s (declaration true stores q1 q2)) in
+  decls2 s' = decls2 s ++ map fst stores /\ Cons keqb pf g s' /\
+  forall k, snd (do_line keqb pf g cacheable s' (LQuery k)) = Some (g (pf (decls2 s') k) k).
+Proof.
+  intros D K P V keqb H pf g c s stores q1 q2 Hc. cbv zeta.
+  destruct (declaration_path_first_consistent keqb H pf g c s stores q1 q2 Hc) as [E Hc'].
+  split; [exact E|]. split; [exact Hc'|]. intros k. apply (consistent_query keqb H pf g c _ k Hc').
+Qed.
+Print Assumptions C08_declaration_in_progress.
+
+(* the order matters: with the plans forgotten first (the library's order before e2a1d4e) one query of another thread between the
+   two forgettings re-plans over the stale memoised path, and the stale plan survives the declaration: a = 2, then a = 2 + 6,
+   the pair keeps answering 2 although a fresh process answers 8; with the paths forgotten first the same history answers 8 *)
+Theorem C08_refuted_plans_forgotten_first :
+  let s0 := fst (run_lines Nat.eqb ex_pf ex_g (fun _ => true) (MkS2 [] [] []) (declaration false [(2, [])] [] [7])) in
+  let '(s1, answers) := run_lines Nat.eqb ex_pf ex_g (fun _ => true) s0 (declaration false [(6, [])] [7] [7; 7]) in
+  decls2 s1 = [2; 6] /\ answers = [None; None; Some 2; None; Some 2; Some 2] /\ ex_g (ex_pf (decls2 s1) 7) 7 = 8.
+Proof. exact plan_first_refuted. Qed.
+
+Example C08_paths_forgotten_first_same_history :
+  let s0 := fst (run_lines Nat.eqb ex_pf ex_g (fun _ => true) (MkS2 [] [] []) (declaration true [(2, [])] [] [7])) in
+  snd (run_lines Nat.eqb ex_pf ex_g (fun _ => true) s0 (declaration true [(6, [])] [7] [7; 7])) = [None; None; Some 2; None; Some 8; Some 8].
+Proof. exact path_first_same_history. Qed.
